@@ -93,9 +93,9 @@ def _call(fn):
         return {"raised": repr(ex), "type": type(ex).__name__}
 
 
-def query(ps, st):
+def query(ps, st, pr=None):
     """The three answers of the real code for PID (each call judged separately)."""
-    pr = ps.Process(PID)
+    pr = pr or ps.Process(PID)
     got = {"num_fds": _call(pr.num_fds)}
     of = _call(pr.open_files)
     if isinstance(of, list):
@@ -229,7 +229,16 @@ def run_chunk(cases):
         posval = POSVALS.__getitem__
         ioval = lambda v: v * S  # noqa: E731
         p, st = build_world(w, inp["tab"], inp["io"], posval, ioval)
-        got = query(ps, st)
+        # cases 4j+2 and 4j+3 are asked of one Process object inside one oneshot() block:
+        # the descriptor table changed in between and the answers must follow it
+        if i % 4 == 2:
+            held = ps.Process(PID)
+            block = held.oneshot()
+            block.__enter__()
+            held.name()
+        got = query(ps, st, held if i % 4 in (2, 3) else None)
+        if i % 4 == 3 or (i % 4 == 2 and i == len(cases) - 1):
+            block.__exit__(None, None, None)
         res = judge(inp["tab"], out, got, posval, ioval)
         stats.update(stats_of(inp["tab"], inp["io"], out, got, st))
         if res:
